@@ -50,12 +50,17 @@ def gen(tier, rng, shard, nshards):
         colspec = []
         for c in range(max(cols, 1)):
             colspec.append({"scale_exp": int(S.pick(rng, [-6, 0, 0, 0, 6])), "zero": bool(rng.random() < 0.12)})
-        yield {"n": n, "dt": dt, "family": family, "cond": cond, "seed": S.seed(rng), "cols": cols, "colspec": colspec,
+        yield_ = {"n": n, "dt": dt, "family": family, "cond": cond, "seed": S.seed(rng), "cols": cols, "colspec": colspec,
                "x0": S.pick(rng, ["none", "none", "zero", "random", "exact"]),
                "precond": S.pick(rng, ["none", "none", "jacobi", "jacobi", "spd", "spd", "nystrom", "nystrom", "tiny-identity", "huge-identity"]),
                "tol": float(S.pick(rng, [1e-12, 1e-10, 1e-8, 1e-6, 1e-4, 1e-2, 1e-1])),
                "max_iters": int(S.pick(rng, [0, 1, 2, 3, 5, 8, 15, 30, n, 2 * n, 1000])),
-               "via": S.pick(rng, ["cg", "cg", "cg", "inv"]), "wide_rhs": bool(rng.random() < 0.15), "opscale": float(S.pick(rng, [1.0, 1.0, 1.0, 1e-9, 1e9]))}
+               "via": S.pick(rng, ["cg", "cg", "cg", "inv"]), "wide_rhs": bool(rng.random() < 0.15), "opscale": float(S.pick(rng, [1.0, 1.0, 1.0, 1e-9, 1e9, 1e-25, 1e25]))}
+        if yield_["opscale"] in (1e-25, 1e25) and yield_["precond"] in ("tiny-identity", "huge-identity", "spd", "nystrom"):
+            # (CG guards its divisions with an absolute 1e-40: r^H P r and p^H A p must stay above it while the residual falls by
+            # 1/tol, so an operator in extreme units is combined with no preconditioner or with Jacobi, whose units cancel A's)
+            yield_["precond"] = S.pick(rng, ["none", "jacobi"])
+        yield yield_
 
 
 def build_problem(case):
